@@ -956,6 +956,14 @@ func init() {
 		}
 		js = append(js, mk("c15.par.parallel_resize_vs_insert.pre1", hashmapPkg, "ZZ_C15_Par", map[string]int{"scenario": 4, "prefill": 0, "canary": 0},
 			func(b *Bounds) { b.Unwind = 300; b.Preempt = 1; b.Race = true; b.Procs = 4; b.MaxPaths = 8000000; b.MaxWallS = 3000 }))
+		sp := 2
+		if tier == "thorough" {
+			sp = 3
+		}
+		sj := mk(sprintf("c15.par.shrink_vs_insert.pre%d", sp), hashmapPkg, "ZZ_C15_Par", map[string]int{"scenario": 5, "prefill": 0, "canary": 0},
+			func(b *Bounds) { b.Unwind = 140; b.Preempt = sp; b.Race = true; b.MaxPaths = 4000000; b.MaxWallS = 2400 })
+		sj.Labels = []string{"c15.shrink.table_shrank", "c15.shrink.concurrent_insert_survives_the_shrink"}
+		js = append(js, sj)
 		c := mk("c15.par.canary", hashmapPkg, "ZZ_C15_Par", map[string]int{"scenario": 1, "prefill": 5, "canary": 1}, func(b *Bounds) { b.Unwind = 140; b.Preempt = 0; b.Race = true })
 		c.Canary = "c15.par.canary"
 		return append(js, c)
